@@ -37,4 +37,22 @@ PROPS = {
                                      "FindMatchingKey and the three KeySet implementations are hand-modelled; tied by this correspondence stream"],
         "assumptions": ["signature terms are symbolic: forging a signature without the key is impossible by definition of the term algebra"],
     },
+    "C12": {
+        "proof_module": "OidcModel.Proofs.C12",
+        "theorems": ["C12.c12_registered_wins", "C12.c12_custom_survives", "C12.c12_merge_monitor", "C12.c12_audience_exact",
+                     "C12.c12_time_exact", "C12.c12_bool_exact", "C12.c12_seal_roundtrip", "C12.c12_seal_monitor",
+                     "Cfb.dec_enc", "Cfb.unseal_seal", "B64.decode_encode"],
+        "cases": {"quick": 6000, "thorough": 150000},
+        "rule": "(a) 7 claims/response types with random registered fields and custom-claim maps whose keys collide with registered names half of the time: "
+                "json.Marshal, top-level comparison with merge(registered, custom), json.Unmarshal back; (b) Audience / Time / Bool decoders on a pool of 36 JSON "
+                "documents + random integers; (c) crypto.EncryptAES/DecryptAES for key sizes 16/24/32 and plaintext lengths 0..300 (thorough: ..4096), the model "
+                "re-computes the ciphertext from the drawn iv and AES's block evaluations (CFB consistency) and decrypts under a second key; "
+                "non-trivial = everything but the modal class; distinct = class x input",
+        "trivial_class": r"seal::ok",
+        "trusted_base": ["encoding/json (generic decoding, struct tags, omitempty), time.Parse(RFC3339) and AES block encryption are oracles",
+                         "the codec is hand-modelled (top-level merge, decoders); tied by this correspondence stream, not regenerated",
+                         "'only under the same key' assumes AES is a pseudo-random permutation; it is sampled, not proved (partial)",
+                         "Locale(s) and SpaceDelimitedArray decoders are exercised in the C09 stream only"],
+        "assumptions": ["block function of fixed output size 16 (any function: the CFB theorem does not use AES)"],
+    },
 }
